@@ -134,6 +134,11 @@ func (ts *TermStore) IntC(v int64) *Term {
 	return ts.intern("ci:"+r.String(), func() *Term { return &Term{op: "const", sort: sInt, big: r} })
 }
 
+// RealCInt makes an Int-sorted constant from an integral rational.
+func (ts *TermStore) RealCInt(r *big.Rat) *Term {
+	return ts.intern("ci:"+r.String(), func() *Term { return &Term{op: "const", sort: sInt, big: r} })
+}
+
 func (ts *TermStore) RealC(r *big.Rat) *Term {
 	return ts.intern("cr:"+r.String(), func() *Term { return &Term{op: "const", sort: sReal, big: r} })
 }
@@ -279,6 +284,13 @@ func (ts *TermStore) Eq(a, b *Term) *Term {
 	}
 	if a.sort == sFP {
 		return ts.mk("fp.eq", sBool, 0, 0, a, b)
+	}
+	if a.sort.K == kBV {
+		la, ia, oka := ts.liftInt(a)
+		lb, ib, okb := ts.liftInt(b)
+		if oka && okb && (ia || ib) {
+			return ts.Eq(la, lb)
+		}
 	}
 	if a.id > b.id {
 		a, b = b, a
@@ -433,6 +445,16 @@ func (ts *TermStore) BVCmp(op string, a, b *Term) *Term {
 	if a == b {
 		return ts.Bool(op == "bvule" || op == "bvsle")
 	}
+	if op == "bvslt" || op == "bvsle" {
+		la, ia, oka := ts.liftInt(a)
+		lb, ib, okb := ts.liftInt(b)
+		if oka && okb && (ia || ib) {
+			if op == "bvslt" {
+				return ts.ArithCmp("<", la, lb)
+			}
+			return ts.ArithCmp("<=", la, lb)
+		}
+	}
 	return ts.mk(op, sBool, 0, 0, a, b)
 }
 
@@ -515,6 +537,57 @@ func (ts *TermStore) Resize(a *Term, w int, srcSigned bool) *Term {
 	default:
 		return ts.ZeroExt(w-sw, a)
 	}
+}
+
+// ---- Int islands inside bit-vector code
+//
+// Int2BV(x) is how an abstract (mathematical) instant enters wrap-around
+// code. Additions, subtractions and comparisons whose leaves are Int2BV terms
+// and constants are decided in integer arithmetic (liftInt), which is exact as
+// long as the values stay inside the signed 64-bit range — the harnesses that
+// use this state that range assumption.
+
+func (ts *TermStore) Int2BV(w int, x *Term) *Term {
+	if x.IsConst() && x.big != nil && x.big.IsInt() {
+		return ts.BV(w, uint64(x.big.Num().Int64()))
+	}
+	return ts.mk("int2bv", sBV(w), w, 0, x)
+}
+
+// liftInt returns the mathematical-integer reading of a bit-vector term built
+// from Int2BV leaves, constants, bvadd and bvsub; hasIsland reports whether an
+// Int2BV leaf occurs.
+func (ts *TermStore) liftInt(t *Term) (r *Term, hasIsland bool, ok bool) {
+	switch t.op {
+	case "int2bv":
+		return t.args[0], true, true
+	case "const":
+		if t.sort.K == kBV {
+			return ts.IntC(sext(t.cv, t.sort.W)), false, true
+		}
+	case "bvadd", "bvsub":
+		a, ia, oka := ts.liftInt(t.args[0])
+		b, ib, okb := ts.liftInt(t.args[1])
+		if oka && okb {
+			op := "+"
+			if t.op == "bvsub" {
+				op = "-"
+			}
+			return ts.Arith(op, sInt, a, b), ia || ib, true
+		}
+	case "bvneg":
+		a, ia, oka := ts.liftInt(t.args[0])
+		if oka {
+			return ts.Arith("-", sInt, ts.IntC(0), a), ia, true
+		}
+	case "ite":
+		a, ia, oka := ts.liftInt(t.args[1])
+		b, ib, okb := ts.liftInt(t.args[2])
+		if oka && okb {
+			return ts.Ite(t.args[0], a, b), ia || ib, true
+		}
+	}
+	return nil, false, false
 }
 
 // ---- arithmetic sorts (Int / Real) and FP
@@ -765,6 +838,8 @@ func (ts *TermStore) rebuild(t *Term, a []*Term) *Term {
 		return ts.SignExt(t.p0, a[0])
 	case "concat":
 		return ts.Concat(a[0], a[1])
+	case "int2bv":
+		return ts.Int2BV(t.p0, a[0])
 	case "+", "-", "*", "/":
 		return ts.Arith(t.op, t.sort, a...)
 	case "<", "<=", ">", ">=":
